@@ -832,15 +832,18 @@ func evalHistory(h []hop, as assign, stats map[string]int) ([]histFailure, obsv,
 }
 
 func histWorker(w *pool.W, arg json.RawMessage) {
-	var spec struct{ Len, Shard, Of int }
+	var spec struct{ Len, Keys, Shard, Of int }
 	json.Unmarshal(arg, &spec)
+	if spec.Keys == 0 {
+		spec.Keys = 4
+	}
 	stats := map[string]int{}
 	var n int64
 	reported := map[string]bool{}
 	// shards are contiguous blocks of the canonical enumeration: the extensions of one prefix sit
 	// next to each other, so the verdict on a prefix is computed once per block
 	total := 0
-	eachHistory(spec.Len, 4, func(h []hop) { total++ })
+	eachHistory(spec.Len, spec.Keys, func(h []hop) { total++ })
 	lo, hi := spec.Shard*total/spec.Of, (spec.Shard+1)*total/spec.Of
 	idx := -1
 	curPrefix, prefixFailed := "", map[string]map[string]bool{}
@@ -859,7 +862,7 @@ func histWorker(w *pool.W, arg json.RawMessage) {
 		}
 		return failed[kind+"/"+birth]
 	}
-	eachHistory(spec.Len, 4, func(h []hop) {
+	eachHistory(spec.Len, spec.Keys, func(h []hop) {
 		idx++
 		if idx < lo || idx >= hi {
 			return
@@ -968,7 +971,9 @@ type bulkSpec struct {
 	Ext int    `json:"ext"` // brand-new keys appended at the end
 }
 
-func (b bulkSpec) String() string { return fmt.Sprintf("n=%d,del=%s,re=%s,ext=%d", b.N, b.Del, b.Re, b.Ext) }
+func (b bulkSpec) String() string {
+	return fmt.Sprintf("n=%d,del=%s,re=%s,ext=%d", b.N, b.Del, b.Re, b.Ext)
+}
 
 func bulkSpecs(quick bool) []bulkSpec {
 	ns := []int{33, 64, 100}
